@@ -212,7 +212,7 @@ def diagnose_all(ctx, failing, pre):
                 break
         if tags is None and gi is not None and gcodes[gi] & 1:
             tags = ["goal-deviation"] + (["impl-equals-short-circuit-model"] if not gcodes[gi] & 2 else [])
-        out[key] = tags or ["validator-only-deviation"]
+        out[key] = tags or ["validator-only-deviation", "step-codes:" + ",".join(str(codes[lo + j]) for j in range(len(recs))) + ";goal:" + (str(gcodes[gi]) if gi is not None else "-")]
     return out
 
 
